@@ -33,16 +33,16 @@ from xsdata.formats.dataclass.serializers.writers import LxmlEventWriter, XmlEve
 WRITERS = {"lxml": LxmlEventWriter, "native": XmlEventWriter}
 HANDLERS = {"lxml": LxmlEventHandler, "native": XmlEventHandler}
 
-ns_maps = st.one_of(
-    st.none(),
-    st.lists(st.tuples(st.sampled_from([None, "", "p", "q", "ns0", "ns1", "xsi", "xs"]),
-                       st.sampled_from(M.URIS + ["urn:q", "urn:unused", "http://www.w3.org/2001/XMLSchema-instance"])),
-             max_size=3, unique_by=lambda t: t[0]),
-)
+def ns_maps(uris):
+    """User prefix maps aimed at the model: default namespace / named prefixes for namespaces the model uses,
+    prefixes that collide with generated ones, well-known prefixes bound elsewhere, unused entries."""
+    pool = list(uris) + ["urn:unused", "http://www.w3.org/2001/XMLSchema-instance"]
+    entry = st.tuples(st.sampled_from([None, None, "", "p", "q", "ns0", "ns1", "ns2", "xsi", "xs"]), st.sampled_from(pool))
+    return st.one_of(st.none(), st.lists(entry, min_size=1, max_size=3, unique_by=lambda t: t[0] or None))
 
 
 @st.composite
-def configs(draw):
+def configs(draw, uris=()):
     return {
         "writer": draw(st.sampled_from(["lxml", "native"])),
         "handler": draw(st.sampled_from(["lxml", "native"])),
@@ -50,7 +50,7 @@ def configs(draw):
         "xml_declaration": draw(st.booleans()),
         "ignore_default_attributes": draw(st.booleans()),
         "encoding": draw(st.sampled_from(["UTF-8", "UTF-8", "UTF-16", "ISO-8859-1"])),
-        "ns_map": draw(ns_maps),
+        "ns_map": draw(ns_maps(uris)),
         "shared_context": draw(st.booleans()),
         "bytes": draw(st.booleans()),
     }
@@ -59,11 +59,11 @@ def configs(draw):
 @st.composite
 def cases(draw):
     mi = draw(M.model_and_instance(OPTS))
-    mi["cfg"] = draw(configs())
+    mi["cfg"] = draw(configs(M.model_uris(mi["spec"], mi["inst"])))
     return mi
 
 
-OPTS = M.Opts()
+OPTS = M.Opts(cr=True)
 
 
 def has_mixed(spec):
@@ -95,6 +95,14 @@ def _execute(case, col, model):
         indent = None
     labels = [f"writer:{cfg['writer']}", f"handler:{cfg['handler']}", "indent" if indent else "no-indent",
               "ns_map" if cfg["ns_map"] else "no-ns_map"] + [f"kind:{k}" for k in kinds]
+    if cfg["ns_map"]:
+        used = set(M.model_uris(case["spec"], case["inst"]))
+        if any(not p and u in used for p, u in cfg["ns_map"]):
+            labels.append("ns_map:default-namespace-used-by-model")
+        if any(p and u in used for p, u in cfg["ns_map"]):
+            labels.append("ns_map:prefix-for-model-namespace")
+        if any(p in ("ns0", "ns1", "ns2", "xsi", "xs") for p, u in cfg["ns_map"]):
+            labels.append("ns_map:collides-with-generated-prefix")
     if any(c["base"] is not None for c in spec["classes"]):
         labels.append("inheritance")
     sample = None
@@ -104,7 +112,8 @@ def _execute(case, col, model):
     ser_cfg = SerializerConfig(indent=indent, xml_declaration=decl, encoding=cfg["encoding"],
                                ignore_default_attributes=cfg["ignore_default_attributes"])
     ns_map = {k: v for k, v in cfg["ns_map"]} if cfg["ns_map"] else None
-    if ns_map and (None in ns_map or "" in ns_map) and M.has_plain_qname([case["inst"], case["spec"]["enums"], case["spec"]["classes"]]):
+    if ns_map and (None in ns_map or "" in ns_map) and not case.get("no_guards") and (
+            M.has_plain_qname([case["inst"], case["spec"]["enums"], case["spec"]["classes"]]) or M.has_plain_type(case["spec"])):
         # a QName without a namespace cannot be written under a default namespace (recorded finding, C03)
         ns_map.pop(None, None)
         ns_map.pop("", None)
@@ -174,7 +183,7 @@ def classify(case, obj, back):
 
 
 def plan(tier, seed):
-    n, nsh = {"quick": (4000, 16), "thorough": (400000, 64)}[tier]
+    n, nsh = {"quick": (12000, 16), "thorough": (480000, 64)}[tier]
     return [{"n": n // nsh, "seed": seed * 1000 + i} for i in range(nsh)]
 
 
